@@ -302,9 +302,9 @@ API_CHECKS = {
     "C05": [("plain", "mut", "C05", 6, 8), ("plain", "loaded", "C05", 4, 6)],
     "C06": [("plain", "frames", "C06", 5, 7), ("plain", "c07", "C06", 5, 7), ("plain", "loaded", "C06", 4, 6)],
     "C07": [("plain", "c07", "C07", 6, 9), ("plain", "loaded", "C07", 4, 6)],
-    "C08": [("plain", "frames", "C08", 5, 7), ("plain", "loaded", "C08", 4, 6)],
+    "C08": [("plain", "frames", "C08", 5, 7), ("plain", "loaded", "C08", 4, 6), ("plain", "wild", "C08", 4, 5)],
     "C09": [("plain", "params", "C09", 3, 4), ("plain", "loaded", "C09", 4, 6)],
-    "C10": [("plain", "mut", "C10", 6, 8), ("plain", "c07", "C10", 6, 8), ("plain", "params", "C10", 3, 4), ("plain", "loaded", "C10", 4, 6)],
+    "C10": [("plain", "mut", "C10", 6, 8), ("plain", "c07", "C10", 6, 8), ("plain", "params", "C10", 3, 4), ("plain", "loaded", "C10", 4, 6), ("plain", "wild", "C10", 4, 6)],
     "C11": [("plain", "lookup", "C11", 6, 9)],
     "C01": [("plain", "build", "C01", 4, 6)],
     "C03": [("plain", "build", "C03", 4, 6)],
@@ -678,7 +678,7 @@ def check_c19(tier, deadline):
 
 
 # ---------------------------------------------------------------------------------------------- C13
-C13_RUNS = [("mut", "C13", 4, 6), ("frames", "C13", 4, 6), ("c07", "C13", 4, 6), ("params", "C13", 2, 3), ("lookup", "C13,C11", 4, 6), ("build", "C13,C01,C03", 3, 4), ("loaded", "C13", 3, 5)]
+C13_RUNS = [("mut", "C13", 4, 6), ("frames", "C13", 4, 6), ("c07", "C13", 4, 6), ("params", "C13", 2, 3), ("lookup", "C13,C11", 4, 6), ("build", "C13,C01,C03", 3, 4), ("loaded", "C13", 3, 5), ("wild", "C13", 3, 4)]
 
 
 def check_c13(tier, deadline):
